@@ -9,8 +9,14 @@ package main
 //	   the real code for well-formed values: the text re-parses, the AST is the
 //	   normalised one, the second print equals the first.
 //	B. near-miss texts (mutated printed texts + hand-written seeds + corpus lines
-//	   "exp:…"): reader correspondence (both reject, or both accept with the same
+//	   "exp:…"; bytes >= 0x80 outside string literals on purpose: Unicode white
+//	   space, U+FFFD and invalid UTF-8 in comments, between and inside tokens):
+//	   reader correspondence (both reject, or both accept with the same
 //	   AST), totality of the parser, round trip of every accepted text.
+//	C. token streams (c09xLexStream, on every text of B and every printed text
+//	   of A): the scanner loop of the generated parser (mmLexInfo.Lex until the
+//	   end of the input or an INVALID token) against Martian.FormatExp.lexAll
+//	   (driver op C09.lextoks), token by token.
 
 import (
 	"bytes"
@@ -657,12 +663,49 @@ var c09xSeeds = []string{
 	`"a\/b"`, `"\a\b\f\n\r\t\v"`, `"\""`, `"\\"`, `"\\\"`, `"😀"`, `"\U0001F600"`, `"\U00110000"`,
 	"\"a\nb\"", "\"é\"", `[ "x" , "y" ]`, `[1]#`, "1\n", "\n1", ` 1 `, `[_x]`, `[_]`, `[_1]`, `[__x]`, `{_x:1}`,
 	`{mem_gb:1,memgb:2,vmem_gb:3,vmemgb:4}`, `[1.5,1e21,1e-7,1e+06,123456]`, `{"":1}`, `{"a":1}{}`, `[]]`, `[[]`,
+	// bytes >= 0x80 outside string literals: a comment stops before an invalid UTF-8 sequence and
+	// before U+FFFD (the byte is then INVALID); Unicode white space is skipped; U+200B is not white space
+	"#\xff\n1", "#\xef\xbf\xbd\n1", "# \xc3\xa9\n1", "1\xc2\xa0", "\xc2\xa01", "[1,\xe3\x80\x802]", "\xe2\x80\x8b1", "1 #c",
+	"1 #\xc3", "#", "# only", "\x80", "1\xff",
+	"# caf\xc3\xa9\n1", "# \xff\n1", "# \xef\xbf\xbd tail\n1", "1 # caf\xc3\xa9", "1 # x\xe2\x80", "1 # x\xf0\x9f\x98", "1#\xf0\x9f\x98\x80\n",
+	"#\xc2\xa0\n1", "#\xe2\x80\xa8\n1", "1\xc2\x85", "\xe2\x80\xa81\xe2\x80\xa9", "[\xe1\x9a\x801\xe2\x81\x9f,\xe2\x80\xaf2\xe2\x80\x8a]", "[1\xe2\x80\x8b]",
+	"\xe2\x80", "1\xe2\x80", "\xed\xa0\x80", "1 \xed\xa0\x80", "\xf4\x90\x80\x80", "\xc3\xa9", "x\xc3\xa9", "[X\xc2\xa0.\xc2\xa0y]", "tru\xc2\xa0e", "1\xc2\xa02",
+	"1\xc3\xa9", "1.5\xc2\xa0", "1e\xc2\xa05", "-\xc2\xa01", "\"a\"\xc2\xa0", "{\"a\"\xe3\x80\x80:\xe3\x80\x801}", "{a\xe2\x80\x89:1}", " \xc2\xa0\t\xe2\x80\x83\n1", "\xc2\xa0#c\n\xc2\xa01",
+	"\xef\xbb\xbf1", "\xe1\xa0\x8e1", "\xc2\x841", "\xc2\x861", "\xc2\x9f1", "\xc2\xa11", "\xe2\x80\x7f1", "\xe2\x80\x8b", "\xe2\x80\xa71", "\xe2\x80\xaa1", "\xe2\x80\xae1",
+	"\xe2\x80\xb01", "\xe1\x9a\x811", "\xe1\x9a1", "\xe2\x81\x9e1", "\xe2\x81\xa01", "\xe3\x80\x811", "\xe3\x801", "\xc21", "\xc2", "1\xc2", "\xc0\x80", "\xc0\xa01", "\xe0\x82\xa01",
+	"#\xc2", "#\xc2\n1", "#\xe2\x80\n1", "# a\xed\xa0\x80\n1", "# a\xf4\x90\x80\x80\n1", "#\xef\xbf\xbd", "#\xef\xbf\xbe\n1", "#\xef\xbf\n1", "#\x80\n1", "##\xff#\n1",
 }
 
 const c09xAlphabet = "[]{},:.\"\\ #-+eE.019azAZ_ \n"
 
+// c09xUni: byte sequences >= 0x80 inserted on purpose (outside string literals too): invalid
+// UTF-8, U+FFFD (which tokCommentRule cannot tell from an invalid sequence), every non-ASCII rune
+// of unicode.IsSpace or its neighbours, runes that are not white space.
+var c09xUni = []string{
+	"\xff", "\x80", "\xc3\xa9", "\xef\xbf\xbd", "\xc2\xa0", "\xc2\x85", "\xe2\x80\xa8", "\xe3\x80\x80", "\xe1\x9a\x80", "\xe2\x81\x9f",
+	"\xe2\x80\x8b", "\xe2\x80", "\xed\xa0\x80", "\xf4\x90\x80\x80",
+	// the rest of unicode.IsSpace above 0x7f
+	"\xe2\x80\x80", "\xe2\x80\x83", "\xe2\x80\x8a", "\xe2\x80\xa9", "\xe2\x80\xaf",
+	// neighbours that are not white space, truncations, other invalid forms
+	"\xc2\x84", "\xc2\x86", "\xc2\xa1", "\xe2\x80\xa7", "\xe2\x80\xaa", "\xe2\x80\xae", "\xe2\x80\xb0", "\xe1\x9a\x81", "\xe2\x81\x9e",
+	"\xe2\x81\xa0", "\xe3\x80\x81", "\xef\xbb\xbf", "\xe1\xa0\x8e", "\xf0\x9f\x98\x80", "\xc2", "\xe3\x80", "\xe1\x9a", "\xc0\xa0", "\xef\xbf", "\xef\xbf\xbe",
+	"\xf0\x9f\x98", "\xa0", "\xbd",
+}
+
+// c09xUniComments: comments with bytes >= 0x80 (each ends its line)
+var c09xUniComments = []string{
+	"# caf\xc3\xa9\n", "# \xff\n", "# \xef\xbf\xbd tail\n", "#\xc2\xa0\n", "# \xe2\x80\xa8 x\n", "#\xf0\x9f\x98\x80\n", "# a\xe2\x80\n", "# \xed\xa0\x80\n",
+	"#\x80\n", "# \xf4\x90\x80\x80 [\n", "# \xc3\xa9\xc3\xa9\xff\n", "#\xef\xbf\xbd\n",
+}
+
+// c09xUniTails: comments at the end of the input, without a newline (some end in a truncated rune)
+var c09xUniTails = []string{
+	" #c", " #\xc3", "#", " # only", " # caf\xc3\xa9", " # x\xe2\x80", " # x\xf0\x9f\x98", "#\xff", " #\xef\xbf\xbd", " # \xc2\xa0", "\n#\xe3\x80",
+}
+
 // c09xNonASCIIOutsideString: does a byte >= 0x80 occur outside a string
-// literal (in a comment counts as outside)?  The model does not cover those.
+// literal (in a comment counts as outside)?  Only counted (histogram key
+// near:non-ascii-outside-string): such texts are generated on purpose.
 func c09xNonASCIIOutsideString(s string) bool {
 	inStr := false
 	for i := 0; i < len(s); i++ {
@@ -733,7 +776,50 @@ func c09xMutate1(c *Ctx, b []byte) []byte {
 		lines = lines[:n-1]
 	}
 	join := func(ls [][]byte) []byte { return bytes.Join(ls, nil) }
-	switch op := rn(16); {
+	uni := func() []byte { return []byte(c09xUni[rn(len(c09xUni))]) }
+	switch op := rn(23); {
+	case op == 16: // bytes >= 0x80 at a token boundary
+		bs := c09xBoundaries(b)
+		return ins(bs[rn(len(bs))], uni())
+	case op == 17 || op == 18: // … anywhere: inside identifiers, numbers, strings, comments
+		return ins(rn(len(b)+1), uni())
+	case op == 19: // a comment with bytes >= 0x80 at a token boundary
+		bs := c09xBoundaries(b)
+		return ins(bs[rn(len(bs))], []byte(c09xUniComments[rn(len(c09xUniComments))]))
+	case op == 20: // a comment at the end of the input, without a newline
+		return append(append([]byte{}, b...), c09xUniTails[rn(len(c09xUniTails))]...)
+	case op == 21: // a white-space byte (or any byte) replaced
+		var pos []int
+		for i, ch := range b {
+			if ch == ' ' || ch == '\n' || ch == '\t' {
+				pos = append(pos, i)
+			}
+		}
+		if len(pos) > 0 && rn(4) != 0 {
+			i := pos[rn(len(pos))]
+			return append(append(append([]byte{}, b[:i]...), uni()...), b[i+1:]...)
+		}
+		if len(b) > 0 {
+			i := rn(len(b))
+			return append(append(append([]byte{}, b[:i]...), uni()...), b[i+1:]...)
+		}
+	case op == 22: // one byte of a multi-byte sequence dropped or changed
+		var pos []int
+		for i, ch := range b {
+			if ch >= 0x80 {
+				pos = append(pos, i)
+			}
+		}
+		if len(pos) > 0 {
+			i := pos[rn(len(pos))]
+			if rn(2) == 0 {
+				return cut(i, i+1)
+			}
+			o := append([]byte{}, b...)
+			o[i] = []byte{0x80, 0x85, 0xa0, 0xbd, 0xbf, 0xc2, 0xe2, 0xef, 0xff, 'a', ' '}[rn(11)]
+			return o
+		}
+		return ins(rn(len(b)+1), uni())
 	case op < 3:
 		if len(b) > 0 {
 			i := rn(len(b))
@@ -834,13 +920,10 @@ func c09xTextMismatch(c *Ctx, text string) (real, model string, mismatch bool, p
 	return c09xOpt(renc, rok), c09xOpt(menc, mok), rok != mok || (rok && renc != menc), ""
 }
 
-// c09xShrinkText deletes lines, then single bytes, while pred keeps holding.
+// c09xShrinkText deletes lines, then single bytes and whole multi-byte runes, while pred keeps holding.
 func c09xShrinkText(text string, pred func(string) bool) string {
 	tries := 0
 	ok := func(cand string) bool {
-		if c09xNonASCIIOutsideString(cand) {
-			return false
-		}
 		tries++
 		return pred(cand)
 	}
@@ -858,7 +941,9 @@ func c09xShrinkText(text string, pred func(string) bool) string {
 	for changed := true; changed && tries < 3000; {
 		changed = false
 		for i := 0; i < len(text) && tries < 3000; {
-			if cand := text[:i] + text[i+1:]; ok(cand) {
+			if _, w := utf8.DecodeRuneInString(text[i:]); w > 1 && ok(text[:i]+text[i+w:]) { // a whole multi-byte rune
+				text, changed = text[:i]+text[i+w:], true
+			} else if cand := text[:i] + text[i+1:]; ok(cand) {
 				text, changed = cand, true
 			} else {
 				i++
@@ -868,18 +953,146 @@ func c09xShrinkText(text string, pred func(string) bool) string {
 	return text
 }
 
+// ---------- part C: token streams ----------
+
+// c09xIdTokens: the tokens of the grammar's `id` production besides ID (Martian.FormatExp.idTokens)
+var c09xIdTokens = map[string]bool{"COMPILED": true, "DISABLED": true, "EXEC": true, "FILETYPE": true, "LOCAL": true,
+	"MEM_GB": true, "VMEM_GB": true, "PREFLIGHT": true, "RETAIN": true, "SPECIAL": true, "SPLIT": true, "STRICT": true,
+	"STRUCT": true, "THREADS": true, "USING": true, "VOLATILE": true}
+
+// c09xGoLex runs the real scanner loop (mmLexInfo.Lex until the end of the input or an INVALID
+// token) and renders it like the reply of the driver op C09.lextoks: `none` when the stream ends
+// with an INVALID token, else `some` and one word per token.  detail is the readable form, with
+// the tokens before the INVALID one (for the report).
+func c09xGoLex(src string) (reply, detail, pan string) {
+	defer func() {
+		if p := recover(); p != nil {
+			reply, detail, pan = "", "", fmt.Sprint(p)
+		}
+	}()
+	toks, _, pos := syntax.VerifLexAll([]byte(src), 1<<20)
+	words := make([]string, 0, len(toks)+1)
+	words = append(words, "some")
+	invalid := false
+	for i, t := range toks {
+		name := syntax.VerifTokenName(t.Id)
+		text := string(t.Text)
+		switch {
+		case name == "INVALID":
+			if i != len(toks)-1 {
+				fatal("C09 lex stream: INVALID token in the middle of the stream of %q", src)
+			}
+			invalid = true
+		case name == "ID" || c09xIdTokens[name]:
+			words = append(words, "d"+hx(text))
+		case name == "TRUE":
+			words = append(words, "T")
+		case name == "FALSE":
+			words = append(words, "F")
+		case name == "NULL":
+			words = append(words, "N")
+		case name == "SELF":
+			words = append(words, "S")
+		case name == "DEFAULT":
+			words = append(words, "D")
+		case name == "LITSTRING":
+			words = append(words, "s"+hx(text))
+		case name == "NUM_INT":
+			words = append(words, "i"+hx(text))
+		case name == "NUM_FLOAT":
+			words = append(words, "f"+hx(text))
+		case len(name) == 3 && name[0] == '\'' && name[2] == '\'':
+			if text != name[1:2] {
+				fatal("C09 lex stream: token %s with text %q", name, text)
+			}
+			words = append(words, "p"+hx(text))
+		case name == "INCLUDE_DIRECTIVE":
+			words = append(words, "r"+hx("@include"))
+		case name == "" || name == "SKIP" || name == "COMMENT":
+			fatal("C09 lex stream: Lex returned token id %d (%q) for %q", t.Id, name, src)
+		default:
+			words = append(words, "r"+hx(text))
+		}
+	}
+	detail = strings.Join(words, " ")
+	if invalid {
+		return "none", fmt.Sprintf("none (INVALID at byte %d; the tokens before it: %s)", pos, c09xReadableToks(detail)), ""
+	}
+	if pos != len(src) {
+		fatal("C09 lex stream: the scanner stopped at byte %d of %q without an INVALID token", pos, src)
+	}
+	return detail, c09xReadableToks(detail), ""
+}
+
+// c09xReadableToks turns a lextoks reply into readable text.
+func c09xReadableToks(rep string) string {
+	ws := strings.Split(rep, " ")
+	for i, w := range ws {
+		if i > 0 && len(w) > 1 && strings.IndexByte("psifdr", w[0]) >= 0 {
+			ws[i] = w[:1] + strconv.Quote(unhx(w[1:]))
+		}
+	}
+	return strings.Join(ws, " ")
+}
+
+// c09xLexMismatch: the token-stream comparison for one text, with a single request (shrinking)
+func c09xLexMismatch(c *Ctx, text string) (real, model string, mismatch bool) {
+	reply, detail, pan := c09xGoLex(text)
+	if pan != "" {
+		return "panic: " + pan, "", true
+	}
+	rep := c.Drv.Ask("C09.lextoks", hx(text))
+	if rep == "bad-op" {
+		fatal("C09 driver: bad-op for lextoks %q", text)
+	}
+	return detail, c09xReadableToks(rep), reply != rep
+}
+
+// c09xLexStream: the real scanner's token stream against the model's lexAll, for every text.
+func c09xLexStream(c *Ctx, rp *c09xReporter, texts []string) {
+	r := c.Res
+	reqs := make([][]string, len(texts))
+	for i, t := range texts {
+		reqs[i] = []string{"C09.lextoks", hx(t)}
+	}
+	reps := c.Drv.AskBatch(reqs)
+	c09xBadOp(reqs, reps)
+	for i, t := range texts {
+		reply, _, pan := c09xGoLex(t)
+		r.count("lex:"+t, true)
+		switch {
+		case pan != "":
+			r.hist("lex:panic")
+		case reply == "none":
+			r.hist("lex:invalid")
+		default:
+			r.hist("lex:accepted")
+		}
+		if pan == "" && reply == reps[i] {
+			continue
+		}
+		r.hist("lex:mismatch")
+		if !rp.want("C09:lex-mismatch") {
+			continue
+		}
+		min := c09xShrinkText(t, func(s string) bool { _, _, mm := c09xLexMismatch(c, s); return mm })
+		real, model, _ := c09xLexMismatch(c, min)
+		rp.report(Violation{Kind: "correspondence", Key: "C09:lex-mismatch",
+			What:  "the token stream of the real scanner (mmLexInfo.Lex until the end of the input or an INVALID token) differs from the model's lexAll",
+			Input: strconv.Quote(min), Impl: real, Model: model,
+			Broken: "correspondence C09.lextoks (Martian.FormatExp.lexAll vs mmLexInfo.Lex)"})
+	}
+}
+
 // c09xCheckTexts runs part B on a batch of texts.
 func c09xCheckTexts(c *Ctx, rp *c09xReporter, texts []string, origin string) {
 	r := c.Res
-	kept := texts[:0:0]
 	for _, t := range texts {
 		if c09xNonASCIIOutsideString(t) {
-			r.hist("near:skipped-non-ascii-outside-string")
-			continue
+			r.hist("near:non-ascii-outside-string")
 		}
-		kept = append(kept, t)
 	}
-	texts = kept
+	c09xLexStream(c, rp, texts)
 	reqs := make([][]string, len(texts))
 	for i, t := range texts {
 		reqs[i] = []string{"C09.parseexp", hx(t)}
@@ -939,8 +1152,27 @@ func c09xCheckTexts(c *Ctx, rp *c09xReporter, texts []string, origin string) {
 	}
 	reps = c.Drv.AskBatch(reqs)
 	c09xBadOp(reqs, reps)
+	// the hypotheses of Props.C09.format_preserves_accepted_exp_partial, evaluated by the driver on the
+	// expression the REAL parser returned (floats in their 'g' text = the abstract canonicaliser g):
+	// strsValid (no string with invalid UTF-8: F6b) and noNegZero (no float -0: F26).  The theorem
+	// parse_produces_wf_partial says that under them the expression is wf.
+	hreqs := make([][]string, 0, 2*len(accepted))
+	for _, a := range accepted {
+		hreqs = append(hreqs, []string{"C09.strsvalid", a.enc}, []string{"C09.noneg0", a.enc})
+	}
+	hreps := c.Drv.AskBatch(hreqs)
+	c09xBadOp(hreqs, hreps)
 	for i, a := range accepted {
-		if !strings.Contains(reps[2*i], "wf=true") {
+		sv, nz := hreps[2*i] == "true", hreps[2*i+1] == "true"
+		r.hist(fmt.Sprintf("near:accepted:strsvalid=%v,noneg0=%v", sv, nz))
+		wfm := strings.Contains(reps[2*i], "wf=true")
+		if sv && nz && !wfm && rp.want("C09:accepted-text-not-wf") {
+			rp.report(Violation{Kind: "correspondence", Key: "C09:accepted-text-not-wf",
+				What:   "the real parser returned an expression that satisfies strsValid and noNegZero but not the model's wf (the range lemma of the reader does not hold for the real parser)",
+				Input:  map[string]string{"text": strconv.Quote(a.text), "enc": a.enc}, Model: reps[2*i],
+				Broken: "Props.C09.parse_produces_wf_partial"})
+		}
+		if !wfm {
 			r.hist("near:accepted-not-wf")
 			continue
 		}
@@ -974,6 +1206,28 @@ func c09xCheckTexts(c *Ctx, rp *c09xReporter, texts []string, origin string) {
 			}
 		}
 	}
+}
+
+// c09xSweep: every byte >= 0x80 and every rune around the non-ASCII white space of
+// unicode.IsSpace (and U+FFFD, the surrogate gap, the ends of the planes), each before a token,
+// after a token, and inside a comment that is followed by a token.
+func c09xSweep() []string {
+	var units []string
+	for b := 0x80; b <= 0xff; b++ {
+		units = append(units, string([]byte{byte(b)}))
+	}
+	ranges := [][2]rune{{0x80, 0xff}, {0x167e, 0x1682}, {0x180d, 0x180f}, {0x1ffe, 0x2070}, {0x2ffe, 0x3002}, {0xd7fe, 0xd7ff},
+		{0xe000, 0xe001}, {0xfefe, 0xff00}, {0xfff0, 0xffff}, {0x10000, 0x10001}, {0x10fffe, 0x10ffff}}
+	for _, rg := range ranges {
+		for r := rg[0]; r <= rg[1]; r++ {
+			units = append(units, string(r))
+		}
+	}
+	var out []string
+	for _, u := range units {
+		out = append(out, u+"1", "[1"+u+"]", "#"+u+"\n1", "1 # "+u)
+	}
+	return out
 }
 
 // ---------- entry point ----------
@@ -1014,7 +1268,7 @@ func c09Exprs(c *Ctx) {
 	}
 
 	// ---- A. generated expressions ----
-	nA, nB := 2500, 6000
+	nA, nB := 2500, 9000
 	if c.Thorough {
 		nA, nB = 60000, 150000
 	}
@@ -1032,6 +1286,13 @@ func c09Exprs(c *Ctx) {
 		}
 		reps := c.Drv.AskBatch(reqs)
 		c09xBadOp(reqs, reps)
+		printed := make([]string, 0, n)
+		for _, cs := range cases {
+			if cs.fmtPanic == "" {
+				printed = append(printed, cs.text)
+			}
+		}
+		c09xLexStream(c, rp, printed)
 		for i, cs := range cases {
 			fails, wf, val, checked := c09xEval(cs, reps[4*i:4*i+4])
 			nontrivial := strings.Contains(cs.text, "\n") || strings.Contains(cs.text, "\\") || c09xHasRef(cs.enc)
@@ -1074,6 +1335,7 @@ func c09Exprs(c *Ctx) {
 	// ---- B. near-miss texts ----
 	texts := append([]string{}, c09xSeeds...)
 	c09xCheckTexts(c, rp, texts, "seed")
+	c09xCheckTexts(c, rp, c09xSweep(), "sweep")
 	for done := len(texts); done < nB; {
 		n := nB - done
 		if n > 1000 {
@@ -1085,14 +1347,7 @@ func c09Exprs(c *Ctx) {
 			if c.Rng.Intn(4) != 0 && len(pool) > 0 {
 				src = pool[c.Rng.Intn(len(pool))]
 			}
-			mut := c09xMutate(c, src)
-			if c09xNonASCIIOutsideString(mut) {
-				// the model reports every byte >= 0x80 outside a string literal as invalid (the real
-				// lexer accepts Unicode white space there): not generated
-				r.hist("near:skipped-non-ascii-outside-string")
-				continue
-			}
-			batch = append(batch, mut)
+			batch = append(batch, c09xMutate(c, src))
 		}
 		c09xCheckTexts(c, rp, batch, "mutant")
 		done += n
